@@ -15,6 +15,7 @@ import (
 	"strings"
 
 	"github.com/LiskHQ/lisk-engine/pkg/db"
+	"github.com/LiskHQ/lisk-engine/pkg/db/batchdb"
 	"github.com/LiskHQ/lisk-engine/pkg/db/diffdb"
 
 	"verifharness/internal/hx"
@@ -64,6 +65,64 @@ type ScanCase struct {
 	R     bool   `json:"r"`
 	Res   []KV   `json:"res"`
 	Close string `json:"close,omitempty"`
+}
+
+// BdbCase: pkg/db/batchdb over (DB, Batch): gets observed, then the batch is written and the DB dumped.
+type BdbCase struct {
+	K     string `json:"k"`
+	Root  string `json:"root"`
+	DB    []KV   `json:"db"`
+	Ops   []*Op  `json:"ops"` // get set del
+	After []KV   `json:"after"`
+	Panic string `json:"panic,omitempty"`
+	Close string `json:"close,omitempty"`
+}
+
+func runBdb(c *BdbCase) {
+	d, err := db.NewInMemoryDB()
+	if err != nil {
+		panic(err)
+	}
+	c.Close, c.Panic, c.After = "", "", nil
+	defer func() {
+		if err := d.Close(); err != nil {
+			c.Close = closeClass(err)
+		}
+	}()
+	defer func() {
+		if e := recover(); e != nil {
+			c.Panic = fmt.Sprintf("bdb:%v", e)
+		}
+	}()
+	fill(d, c.DB)
+	batch := d.NewBatch()
+	var b *batchdb.Database
+	if c.Root == "" {
+		b = batchdb.New(d, batch)
+	} else {
+		b = batchdb.NewWithPrefix(d, batch, unhex(c.Root))
+	}
+	for _, o := range c.Ops {
+		o.Res = nil
+		k := unhex(o.A)
+		switch o.O {
+		case "get":
+			v, ok := b.Get(k)
+			if ok {
+				o.Res = hx2(v)
+			}
+			scribble(v)
+		case "set":
+			v := unhex(o.X)
+			b.Set(k, v)
+			scribble(v)
+		case "del":
+			b.Del(k)
+		}
+		scribble(k)
+	}
+	d.Write(batch)
+	c.After = dump(d)
 }
 
 var alphabet = []byte{0x00, 0x61, 0xff}
@@ -377,6 +436,7 @@ func main() {
 	out := flag.String("out", "", "output jsonl")
 	nOps := flag.Int("ops", 1500, "random operation-sequence cases")
 	nScan := flag.Int("scan", 1500, "random db scan cases")
+	nBdb := flag.Int("bdb", 300, "random batchdb cases")
 	maxLen := flag.Int("len", 22, "max operations per sequence")
 	in := flag.String("in", "", "replay: jsonl of cases to re-execute")
 	corpus := flag.String("corpus", "", "directory of corpus jsonl files to run first")
@@ -406,7 +466,14 @@ func main() {
 			if err := json.Unmarshal(line, &probe); err != nil {
 				panic(err)
 			}
-			if probe.K == "scan" {
+			if probe.K == "bdb" {
+				c := &BdbCase{}
+				if err := json.Unmarshal(line, c); err != nil {
+					panic(err)
+				}
+				runBdb(c)
+				o.Put(c)
+			} else if probe.K == "scan" {
 				c := &ScanCase{}
 				if err := json.Unmarshal(line, c); err != nil {
 					panic(err)
@@ -446,6 +513,25 @@ func main() {
 		root := roots[r.Intn(len(roots))]
 		c := &OpsCase{K: "ops", Root: hx2(root), DB: genDB(r, root), Ops: genOps(r, 3+r.Intn(*maxLen))}
 		runOps(c)
+		o.Put(c)
+	}
+	for i := 0; i < *nBdb; i++ {
+		root := roots[r.Intn(len(roots))]
+		c := &BdbCase{K: "bdb", Root: hx2(root), DB: genDB(r, root)}
+		n := 2 + r.Intn(10)
+		for j := 0; j < n; j++ {
+			o := &Op{A: hx2(rkey(r, 2))}
+			switch r.Intn(3) {
+			case 0:
+				o.O = "get"
+			case 1:
+				o.O, o.X = "set", hx2(rval(r))
+			default:
+				o.O = "del"
+			}
+			c.Ops = append(c.Ops, o)
+		}
+		runBdb(c)
 		o.Put(c)
 	}
 	for i := 0; i < *nScan; i++ {
